@@ -8,7 +8,6 @@ import (
 	"sort"
 	"strings"
 
-	"golang.org/x/text/unicode/norm"
 
 	"github.com/zclconf/go-cty/cty"
 	"github.com/zclconf/go-cty/cty/convert"
@@ -91,7 +90,7 @@ func apply(api string, args []cty.Value, x J) (cty.Value, error) {
 	case "GetAttr":
 		name := realName(asS(x["name"]))
 		if b, ok := x["nfd"].(bool); ok && b {
-			name = norm.NFD.String(name) // a decomposed spelling of the same name
+			name = denorm(name) // a non-normalized spelling of the same name
 		}
 		return args[0].GetAttr(name), nil
 	case "Convert":
